@@ -309,7 +309,23 @@ func (client *client) writeLoop() {
 	for {
 		select {
 		case <-client.close:
-			return
+			// setError queues the DISCONNECT just before it closes client.close: if both are ready
+			// when we get here the select picks at random, and the reason code must not be lost
+			// (nor the connection be left open, it is this loop that closes it after a DISCONNECT).
+			for {
+				select {
+				case packet := <-client.out:
+					if _, ok := packet.(*packets.Disconnect); !ok {
+						continue
+					}
+					if err = client.writePacket(packet); err == nil {
+						srv.statsManager.packetSent(packet, client.opts.ClientID)
+					}
+					_ = client.rwc.Close()
+				default:
+				}
+				return
+			}
 		case packet := <-client.out:
 			switch p := packet.(type) {
 			case *packets.Publish:
